@@ -1,7 +1,7 @@
 (* The optimizer and the trace semantics: the optimized program makes the same host calls (C02's
    "exact per-evaluation call counts"), and what the optimizer itself evaluates at Generate time
    makes none. *)
-From P2 Require Import Base.Prelude Base.PreludeProofs Sem.Num Sem.Syntax Sem.Ops Sem.Lib Sem.Ref Sem.Gen Sem.Sim Sem.RelProofs Sem.GenProofs Sem.RefMono Sem.Trace Sem.TraceProofs Sem.Opt Sem.OptRel Sem.OptRelProofs Sem.OptOpsProofs Sem.OptWf Sem.OptProofs Sem.OptSound Sem.OptFlagsProofs Sem.OptValue Sem.TraceSim.
+From P2 Require Import Base.Prelude Base.PreludeProofs Sem.Num Sem.Syntax Sem.Ops Sem.Lib Sem.Ref Sem.Gen Sem.Sim Sem.RelProofs Sem.GenProofs Sem.RefMono Sem.Trace Sem.TraceProofs Sem.Opt Sem.OptRel Sem.OptRelProofs Sem.OptOpsProofs Sem.OptWf Sem.OptProofs Sem.OptSound Sem.OptFlagsProofs Sem.OptValue Sem.OptExamples Sem.TraceSim.
 Require Import Lia.
 
 Section TraceOpt.
@@ -129,4 +129,15 @@ Theorem generate_static_not_host : forall fl f args,
   rule_static fl f args <> AStatic f args -> static_arity f <> None.
 Proof.
   intros fl f args H E. apply H. unfold rule_static. rewrite E. destruct (static_pure fl f); reflexivity.
+Qed.
+
+(* the example oracle (tick answers the sum of two integers) respects the value relation *)
+Lemma host_ex_respects known : host_respects known host_ex.
+Proof.
+  intros f vs vs' H. unfold host_ex.
+  destruct H as [|v v' vs vs' Hv H]; [constructor|].
+  inversion Hv; subst; try constructor.
+  destruct H as [|w w' vs vs' Hw H]; [constructor|].
+  inversion Hw; subst; try constructor.
+  destruct H; constructor. constructor.
 Qed.
